@@ -6,6 +6,7 @@ package main
 
 import (
 	"fmt"
+	"go/ast"
 	"go/token"
 	"go/types"
 	"sort"
@@ -1849,7 +1850,10 @@ func (x *X) verify() (res *VerifyResult) {
 				res.Obligs = nil
 				return
 			}
-			panic(r)
+			// any other failure of the executor on this function (a value shape it does not expect) also means that the
+			// function is outside its reach: reported as such, never as a crash of the whole check
+			res.Undecided = fmt.Sprintf("the executor failed on this function: %v", r)
+			res.Obligs = nil
 		}
 	}()
 	s := &State{objs: map[int]Val{}, arrs: map[int]Val{}, maps: map[int]MapS{}, ghost: map[string]Val{}, iters: map[ssa.Value]*IterState{}, lets: map[string]Val{}}
@@ -1936,6 +1940,7 @@ func (x *X) checkEnsures(s *State, res []Val) {
 			name = fmt.Sprintf("ensures%d", k)
 		}
 		x.emit(s, "ensures", fmt.Sprintf("%s@b%d", name, fr.block.Index), c.Labels, g, c.Text)
+		x.emitCover(s, c, name, res, fr.block.Index)
 		// a postcondition established at this return may serve as a lemma for the later grouped ones (it is checked
 		// on its own above, so nothing is taken for granted); ungrouped obligations never see these entries
 		if c.Group == "" {
@@ -2102,4 +2107,41 @@ func sameVal(a, b Val) bool {
 		return as.T == bs.T
 	}
 	return false
+}
+
+// emitCover: for a postcondition of the form "A ==> B" a reachability witness "the path condition and A are
+// satisfiable at this return" (quantifier-free part only). The check requires at least one return path per clause on
+// which the witness is not refuted.
+func (x *X) emitCover(s *State, c *Clause, name string, res []Val, block int) {
+	call, ok := c.Expr.(*ast.CallExpr)
+	if !ok {
+		return
+	}
+	id, ok := call.Fun.(*ast.Ident)
+	if !ok || id.Name != "imp" || len(call.Args) != 2 {
+		return
+	}
+	var ante string
+	func() {
+		defer func() {
+			if r := recover(); r != nil {
+				ante = ""
+			}
+		}()
+		ev := x.newEv(s, evalCtx{results: res, post: true, assuming: true})
+		v := ev.eval(call.Args[0])
+		if sc, ok := v.(Sc); ok && sc.Sort == "Bool" {
+			ante = sc.T
+		}
+	}()
+	if ante == "" || ante == "false" || strings.Contains(ante, "(forall ") || strings.Contains(ante, "(exists ") {
+		if ante == "false" {
+			return
+		}
+		ante = "true" // not expressible without quantifiers: only the path itself must be reachable
+	}
+	o := &Oblig{Name: fmt.Sprintf("%s#cover.%s@b%d.%d", x.key, name, block, len(x.obligs)), Fn: x.key, Kind: "cover", Goal: "false",
+		PC: append(visiblePC(s.pc, c.Group), ante), Vacuity: true, Clause: "antecedent reachable: " + c.Text}
+	o.Decls = x.decls[:len(x.decls):len(x.decls)]
+	x.obligs = append(x.obligs, o)
 }
